@@ -9,6 +9,7 @@ import (
 	"time"
 
 	"google.golang.org/grpc"
+	"google.golang.org/grpc/attributes"
 	"google.golang.org/grpc/balancer"
 	"google.golang.org/grpc/codes"
 	"google.golang.org/grpc/connectivity"
@@ -349,7 +350,7 @@ func (s *Sim) connState(id int, st connectivity.State) balancer.SubConnState {
 
 // initAddrs: the lists the resolver delivers. 0-2 as ever; 3 three addresses; 4
 // twenty addresses; 5 the last nineteen of them; 6 one address that differs
-// from list 0 in its server name only. With plan.SharedAddrs lists 0-5 are
+// from list 0 in its server name, attributes and (non-comparable) metadata only. With plan.SharedAddrs lists 0-5 are
 // windows into one array the resolver owns and keeps (a shorter list has the
 // longer ones in its spare capacity: a library that appends to a list it was
 // given writes into the next one); otherwise every update passes a copy of its
@@ -365,7 +366,7 @@ func (s *Sim) initAddrs() {
 	for i := range m {
 		s.addrMaster[i] = m[i]
 	}
-	s.addrSets = [][]resolver.Address{m[0:1], m[0:2], m[2:3], m[0:3], m[0:20], m[1:20], {{Addr: "a:1", ServerName: "other.example"}}}
+	s.addrSets = [][]resolver.Address{m[0:1], m[0:2], m[2:3], m[0:3], m[0:20], m[1:20], {{Addr: "a:1", ServerName: "other.example", Attributes: attributes.New("zone", "z1"), BalancerAttributes: attributes.New("w", 3), Metadata: []string{"not", "comparable"}}}}
 	s.addrWin = [][2]int{{0, 1}, {0, 2}, {2, 3}, {0, 3}, {0, 20}, {1, 20}}
 	for _, a := range s.addrSets {
 		s.addrWant = append(s.addrWant, addrsString(a))
